@@ -35,6 +35,7 @@ type gwConfig struct {
 	sessionEnc    *string
 	sessionStore  string
 	maxSessionLen int
+	redir         string // seven switches as 0/1: clipboard, port, drive, printer, pnp, disable-all, redirect-all ("" = not written)
 	providerURL   string
 	clientID      string
 	authSocket    string
@@ -125,6 +126,11 @@ func (c gwConfig) entries() []kvp {
 	}
 	if c.smartcard {
 		e = append(e, kvp{"Caps", "SmartCardAuth", "true"})
+	}
+	if len(c.redir) == 7 {
+		for i, k := range []string{"EnableClipboard", "EnablePort", "EnableDrive", "EnablePrinter", "EnablePnp", "DisableRedirect", "RedirectAll"} {
+			e = append(e, kvp{"Caps", k, fmt.Sprint(c.redir[i] == '1')})
+		}
 	}
 	if c.idle != nil {
 		e = append(e, kvp{"Caps", "IdleTimeout", fmt.Sprint(*c.idle)})
